@@ -289,29 +289,49 @@ class CheckIdentityTask(Task):
             requestor.attrs["user_identity"] = req
         else:
             requestor.attrs["user_identity"] = None
-        behaviour = I.choose(5, "handler behaviour") if has_req else 0
+        # handler behaviours: 0 absent/default, 1 raises NotImplementedError, 2 raises something else, 3.. returns
+        # (verdict, server response) for verdict in {True, False} x response in {None, bytes, neither (str), neither (int)}
+        RESP = ["None", "bytes", "str", "int"]
+        behaviour = I.choose(3 + 2 * len(RESP), "handler behaviour") if has_req else 0
         g["behaviour"] = behaviour
+        verdict_in = None if behaviour < 3 else ((behaviour - 3) // len(RESP) == 0)
+        resp_kind = None if behaviour < 3 else RESP[(behaviour - 3) % len(RESP)]
+        resp_val = {None: None, "None": None, "bytes": I.input("bytes", "server_response") if resp_kind == "bytes" else None,
+                    "str": "denied", "int": 401}[resp_kind]
 
         def handler(I_, attrs):
             if behaviour == 1:
                 raise PyRaise(ExcVal("NotImplementedError"))
             if behaviour == 2:
                 raise PyRaise(ExcVal("RuntimeError", ("handler failed",)))
-            if behaviour == 3:
-                return (False, None)
-            if behaviour == 4:
-                return (True, Env("server_response"))
-            return (True, None)
+            if behaviour == 0:
+                return (True, None)
+            return (verdict_in, resp_val)
         g["handlers"] = {"EVT_USER_ID": handler}
-        I.cfg.summaries["pynetdicom.pdu_primitives:UserIdentityNegotiation"] = lambda I_, a, k: Env("identity_response")
+        # the REAL UserIdentityNegotiation (constructor and server_response setter, which raises TypeError for a value that is
+        # neither bytes nor None) is executed, not summarised
         kind, val = I.run_function(I.repo.func(CHK), [me])
         I.ob(f"{P}/no-exception-whatever-the-handler-does", kind == "return", detail=f"{kind}:{val!r}")
         if kind != "return":
             return
         verdict = val[0] if isinstance(val, tuple) and len(val) == 2 else None
-        want = {0: True, 1: True, 2: False, 3: False, 4: True}[behaviour] if has_req else True
+        want = True if (not has_req or behaviour in (0, 1)) else (False if behaviour == 2 else verdict_in)
         I.ob(f"{P}/verdict:absent-or-unimplemented-or-positive=>True,exception-or-negative=>False", verdict is want,
-             detail=f"behaviour {behaviour}: {val!r}")
+             detail=f"behaviour {behaviour} (handler verdict {verdict_in}, server response {resp_kind}): {val!r}")
+        item = val[1] if isinstance(val, tuple) and len(val) == 2 else "?"
+        if want is not True:
+            I.ob(f"{P}/a-negative-verdict-carries-no-response-item", item is None, detail=repr(val))
+        elif has_req and behaviour >= 3:
+            t_ = req.attrs["user_identity_type"].e
+            wanted_item = z3.And(z3.Or(t_ == 3, t_ == 4, t_ == 5), req.attrs["positive_response_requested"].e, z3.BoolVal(resp_kind == "bytes"))
+            got_item = isinstance(item, Obj) and item.cls.name == "UserIdentityNegotiation"
+            I.ob(f"{P}/response-item-iff-type-3-4-5-and-positive-response-requested-and-a-storable-server-response",
+                 wanted_item == z3.BoolVal(got_item), detail=f"behaviour {behaviour}: {val!r}")
+            if got_item:
+                sr = item.fields.get("_server_response")
+                I.ob(f"{P}/the-response-item-carries-the-handler's-server-response", sr is resp_val, detail=repr(sr))
+            else:
+                I.ob(f"{P}/without-a-response-item-None-is-returned", item is None, detail=repr(item))
         sets = [e.args[2] for e in I.trace if e.name == "setattr" and e.args[0] == "acse.assoc" and e.args[1] == "abort"]
         I.ob(f"{P}/assoc.abort-is-restored-to-the-blocking-variant-on-every-path",
              (not has_req and len(sets) == 1) or (len(sets) >= 2 and isinstance(sets[-1], Env) and sets[-1].path.endswith("_abort_blocking")),
